@@ -136,12 +136,28 @@ ApplyCmd(kv, c) ==
 (* position, command, leader index (NoLI when the command carries none).   *)
 (* The leader index recorded by a table is the one carried by the last     *)
 (* entry that carries one (C03: a function of the log only).               *)
+(* REPLICATED SEQUENCES (C05: every leader command exactly once): the      *)
+(* commands of a SEQUENCE built by a replication worker each carry the     *)
+(* leader index they have on the leader (field sli = that index + 1, 0 or  *)
+(* absent = none); those at or below the recorded leader index took effect *)
+(* already and are skipped, and a SEQUENCE never moves the recorded index  *)
+(* backwards (a DUMMY - table reset - may).                                *)
 (***************************************************************************)
 InitTable == [kv |-> EmptyKV, idx |-> 0, lidx |-> 0]
 
+SubLI(c) == IF "sli" \in DOMAIN c THEN c.sli - 1 ELSE NoLI
+Fresh(c, lidx) == SubLI(c) = NoLI \/ SubLI(c) > lidx
+RECURSIVE Unseen(_, _)
+Unseen(c, lidx) ==          \* the sequence without the commands that took effect already
+  IF c.t # "SEQ" THEN c
+  ELSE [c EXCEPT !.cmds = LET keep == SelectSeq(c.cmds, LAMBDA s : Fresh(s, lidx))
+                          IN [i \in 1..Len(keep) |-> Unseen(keep[i], lidx)]]
+
 ApplyEntry(st, e) ==
-  LET x == ApplyCmd(st.kv, e.c) IN
-  [st  |-> [kv |-> x.kv, idx |-> e.i, lidx |-> IF e.li = NoLI THEN st.lidx ELSE e.li],
+  LET x == ApplyCmd(st.kv, Unseen(e.c, st.lidx)) IN
+  [st  |-> [kv |-> x.kv, idx |-> e.i,
+            lidx |-> IF e.li = NoLI THEN st.lidx
+                     ELSE IF e.c.t = "SEQ" /\ e.li < st.lidx THEN st.lidx ELSE e.li],
    val |-> x.val, r |-> x.r]
 
 RECURSIVE ApplyEntries(_, _)
